@@ -18,7 +18,6 @@
 import TfelVerif.C21.Lemmas
 import TfelVerif.C21.GenModuli
 import TfelVerif.C21.GenIso
-import TfelVerif.C21.PropsModuli
 
 namespace TfelVerif.C21.Props
 open TfelVerif TfelVerif.C21
@@ -43,7 +42,8 @@ theorem stiffness_formats_agree (E nu lam mu : K) :
 theorem stiffness_YN_spec (E nu : K) (h : Admissible E nu) :
     Gen.stiffness_YN_all c c3 fn E nu = isoStiff (nu * E / ((1 + nu) * (1 - 2 * nu))) (E / (2 * (1 + nu))) := by
   obtain ⟨h1, h2, h3, h4, h5, h6, h7⟩ := h.dens
-  rw [(stiffness_formats_agree c c3 fn E nu 0 0).1, YN_ToKG_spec]
+  have spec : Gen.YN_ToKG_all c c3 fn E nu = [E / (3 * (1 - 2 * nu)), E / (2 * (1 + nu))] := by c21_eq
+  rw [(stiffness_formats_agree c c3 fn E nu 0 0).1, spec]
   simp only [app2, List.getD_cons_succ, List.getD_cons_zero]
   rw [stiffness_KG_spec]
   congr 1
@@ -92,10 +92,14 @@ theorem stiffness_KG_posdef (kap mu e0 e1 e2 e3 e4 e5 : K) (hK : 0 < kap) (hG : 
 theorem stiffness_YN_posdef (E nu e0 e1 e2 e3 e4 e5 : K) (h : Admissible E nu)
     (hne : ¬ (e0 = 0 ∧ e1 = 0 ∧ e2 = 0 ∧ e3 = 0 ∧ e4 = 0 ∧ e5 = 0)) :
     0 < quad6 (Gen.stiffness_YN_all c c3 fn E nu) [e0, e1, e2, e3, e4, e5] := by
-  obtain ⟨hk, hm⟩ := YN_ToKG_admissible c c3 fn E nu h
-  rw [(stiffness_formats_agree c c3 fn E nu 0 0).1]
-  rw [YN_ToKG_spec] at hk hm ⊢
-  simp only [List.getD_cons_succ, List.getD_cons_zero, app2] at hk hm ⊢
+  obtain ⟨hE, h1, h2⟩ := h
+  have spec : Gen.YN_ToKG_all c c3 fn E nu = [E / (3 * (1 - 2 * nu)), E / (2 * (1 + nu))] := by c21_eq
+  have a : 0 < 1 - 2 * nu := by linarith
+  have b : 0 < 1 + nu := by linarith
+  have hk : 0 < E / (3 * (1 - 2 * nu)) := by positivity
+  have hm : 0 < E / (2 * (1 + nu)) := by positivity
+  rw [(stiffness_formats_agree c c3 fn E nu 0 0).1, spec]
+  simp only [List.getD_cons_succ, List.getD_cons_zero, app2]
   exact stiffness_KG_posdef c c3 fn _ _ e0 e1 e2 e3 e4 e5 hk hm hne
 
 /-- `computeKappaMu` / `computeKGModuli` on an arbitrary 6×6 tensor: the projections on `J` and `K'` -/
